@@ -10,7 +10,7 @@ Decides (structural):
   R-INSERT-AFTER-PROBE (C05) one live row per key
   R-CLEAR-RESETS    for each Table impl: fields written by the mutation path are reset by clear()
 """
-from ..util import guards, edge_relation, fmt_atoms, variant_is, trace_back
+from ..util import guards, edge_relation, fmt_atoms, variant_is, trace_back, match_arms, arm_region
 from . import c05, extent_common
 from .rebuild_common import RebuildModel, desc_local
 
@@ -331,4 +331,76 @@ def run(chk, prog, tier):
     check_index_protocol(chk, prog)
     c05.check_insert_after_probe(chk, prog)
     extent_common.check_scan_extent(chk, prog)
+    check_fast_subset(chk, prog)
     check_clear_resets(chk, prog)
+
+
+FAST_SUBSET_TABLE = {
+    # constraint variant -> {result arm of binary_search_sort_val -> (low, high)}
+    "EqConst": {"Ok": ("ok0", "ok1")},
+    "LtConst": {"Ok": ("zero", "ok0"), "Err": ("zero", "err")},
+    "GtConst": {"Ok": ("ok1", "end"), "Err": ("err", "end")},
+    "LeConst": {"Ok": ("zero", "ok1"), "Err": ("zero", "err")},
+    "GeConst": {"Ok": ("ok0", "end"), "Err": ("err", "end")},
+}
+
+
+def check_fast_subset(chk, prog, R=None):
+    """timestamp-range subsets: `fast_subset` turns a constraint on the sort column into a row range using the
+    (first row with the value, first row after it) pair of the binary search. Ge/Lt must split exactly at the
+    first row with the value, Gt/Le exactly after the last one."""
+    R = R or chk.rule("R-FAST-SUBSET", "SortedWritesTable::fast_subset: for binary_search_sort_val = Ok((found, bound)) / Err(next): EqConst -> [found, bound); LtConst -> [0, found) / [0, next); "
+                      "LeConst -> [0, bound) / [0, next); GtConst -> [bound, end) / [next, end); GeConst -> [found, end) / [next, end)")
+    name = f"<{SWT} as egglog_core_relations::table_spec::Table>::fast_subset"
+    f = prog.need(name)
+    arms = match_arms(prog, f, "egglog_core_relations::table_spec::Constraint")
+    if not arms:
+        chk.missing(R, "match on Constraint in fast_subset")
+        return
+    sw, amap, _, _ = arms[0]
+
+    def classify(op):
+        at = f.origins(op)
+        kinds = set()
+        for a in at:
+            if a[0] == "call" and a[1].endswith("NumericId>::new"):
+                c = f.call_at(a[2])
+                if c.args and c.args[0][0] == "k" and c.args[0][1].startswith("0"):
+                    kinds.add("zero")
+                else:
+                    kinds.add("?")
+            elif a[0] == "call" and a[1].endswith("Rows::next_row"):
+                kinds.add("end")
+            elif a[0] == "call" and a[1].endswith("binary_search_sort_val"):
+                p = a[3]
+                if p[:1] == ("@Ok",):
+                    kinds.add("ok" + p[-1] if p[-1] in ("0", "1") else "?")
+                elif p[:1] == ("@Err",):
+                    kinds.add("err")
+                else:
+                    kinds.add("?")
+            else:
+                kinds.add("?")
+        return next(iter(kinds)) if len(kinds) == 1 else "?"
+
+    n = 0
+    for variant, want in FAST_SUBSET_TABLE.items():
+        if variant not in amap:
+            chk.missing(R, f"{variant} arm of fast_subset")
+            continue
+        reg = arm_region(f, sw, amap[variant])
+        got = {}
+        for c in f.calls:
+            if c.bb in reg and c.p.endswith("OffsetRange::new"):
+                # which arm of the search result?
+                arm = None
+                for g in guards(f, c.bb):
+                    if "variant" in g:
+                        pa = f.origins(g["place"])
+                        if any(a[0] == "call" and a[1].endswith("binary_search_sort_val") for a in pa):
+                            arm = "Ok" if variant_is(g, 0) else ("Err" if variant_is(g, 1) else None)
+                got[arm] = (classify(c.args[0]), classify(c.args[1]))
+        n += 1
+        chk.judge(got == want, R, f"{SWT}::fast_subset:{variant}", f"{variant}: {want}",
+                  f"{variant} maps the search result to {got}, expected {want}: rows stamped exactly with the constraint value end up on the wrong side", f.loc)
+    chk.floor(R, n, 5, "constraint variants handled by fast_subset")
